@@ -66,6 +66,11 @@ def check_sources(ctx, prod, N, plasmids, label):
     return src, cover
 
 
+def sorted_cover(cover):
+    # covers are compared position-wise in the order the features appear (chain order)
+    return list(cover)
+
+
 def ob_provenance(ctx):
     st = ctx.stack
     P = ctx.P
@@ -111,6 +116,12 @@ def ob_provenance(ctx):
         ctx.require(And(Eq(a, off), Eq(b, off + geo[i][1])), "source-features-do-not-tile-the-product")
         off = off + geo[i][1]
     ctx.witness("empty-fragment", Or([Eq(g[1], 0) for g in geo]))
+    # a library built in one destination vector: the same objects assembled again carry the same provenance
+    prod_b = vec.assemble(*mods, id=P["pid"], name=P["pname"])
+    src_b, cover_b = check_sources(ctx, prod_b, N, plasmids, "repeat")
+    ctx.require(len(src_b) == m + 1, "repeated-assembly:one-source-feature-per-fragment:%d" % len(src_b))
+    ctx.require(And([And(Eq(a, c), Eq(b, d)) for (a, b), (c, d) in zip(sorted_cover(cover), sorted_cover(cover_b))]),
+                "repeated-assembly:source-features-moved")
     if not P["level2"]:
         return True
     # level 2: the product (concrete length needed) re-used as a module with arbitrary spans
